@@ -1,12 +1,12 @@
 (* C02 — what one side serialises the other side parses back unchanged (partial).
-   No theorem of this development composes a serialiser model with the parser model end to end
-   (that needs the parser's behaviour on a rendered message, which is not proved yet).  What IS
-   proved and used here: the framing of what each side writes (below and C05), that the parser's
-   result does not depend on how those bytes are segmented (C01), and the value-level round trips of
-   typed headers, cookies and media types (C16, C17, C18).  The end-to-end statement itself is
-   decided by the live client <-> endpoint correspondence check. *)
+   Client -> server is a theorem (C02_client_request_parses_back): the request parser model, run on
+   what the client serialiser model writes, ends Done exactly at the last byte with the message whose
+   fields are the effects of the components the request was built from.  Server -> client (response
+   writer -> response parser) is not composed end to end: its framing is proved (below and C05) and the
+   end-to-end statement is decided by the live client <-> endpoint correspondence check.  Segmentation
+   independence of the parser result is C01; typed header, cookie and media type values are C16-C18. *)
 From Coq Require Import Ascii String List NArith Arith.
-Require Import Bytes WireModel WireLemmas.
+Require Import Bytes NumParse Restartable ParserModel WireModel WireLemmas RoundTripLemmas.
 Import ListNotations.
 
 Theorem C02_request_framing_with_body : forall m host path q cs hs body,
@@ -28,3 +28,37 @@ Theorem C02_response_framing : forall code hs cs body,
     = head ++ list_of_string "Content-Length: " ++ print_dec (N.of_nat (length body)) ++ crlf ++ crlf ++ body.
 Proof. exact render_framing. Qed.
 Print Assumptions C02_response_framing.
+
+(* Every request the client builder can express with components that need no escaping (method of the
+   table; path without blank and '?'; query keys without '=', '&', blank and values without '&',
+   blank; cookie names without '=', blank, tab, LF and values without ';', LF; application headers
+   with unregistered names without ':' and CR and values without LF that do not start with a blank;
+   a Host value the typed parser accepts; any body below 2^64 bytes) is parsed by the server side,
+   delivered whole, to Done exactly at its last byte, with the method, resource, query pairs,
+   cookies, headers (in order, first occurrence wins) and body it was built from. *)
+Theorem C02_client_request_parses_back :
+  forall typed_other set_cookie mt mi host path qs cs hs body,
+    wf_method mt mi -> wf_resource (slash path ++ path) -> Forall wf_pair qs ->
+    Forall wf_cookie cs -> Forall plain_header hs -> wf_value host ->
+    typed_ok typed_other "User-Agent" ua -> typed_ok typed_other "Host" host ->
+    (N.of_nat (length body) <= 18446744073709551615)%N ->
+    exists st,
+      whole typed_other set_cookie KRequest (write_request mt host path (query_text qs) cs hs body) = (PDone, st)
+      /\ p_cur st = length (write_request mt host path (query_text qs) cs hs body)
+      /\ p_msg st = set_body (parsed_head mi (slash path ++ path) qs (client_lines cs hs host body)) body.
+Proof. exact client_request_roundtrip. Qed.
+Print Assumptions C02_client_request_parses_back.
+
+(* non-vacuity: a concrete request meets the hypotheses; evaluated with the executable instance *)
+Require Import ParserInst.
+Local Open Scope string_scope.
+Example C02_ex :
+  let s := list_of_string in
+  let req := write_request (s "POST") (s "example.com:8080") (s "/a/b")
+               (query_text [(s "k", s "v"); (s "x", [])]) [(s "sid", s "1"); (s "t", s "2")] [(s "X-Trace", s "abc")] (s "hello") in
+  match whole typed_other_inst set_cookie_inst KRequest req with
+  | (PDone, st) => (m_method (p_msg st), m_resource (p_msg st), m_query (p_msg st), m_cookies (p_msg st), m_body (p_msg st), Nat.eqb (p_cur st) (length req))
+                   = (2%N, s "/a/b", [(s "k", s "v"); (s "x", [])], [(s "sid", s "1"); (s "t", s "2")], s "hello", true)
+  | _ => False
+  end.
+Proof. vm_compute. reflexivity. Qed.
